@@ -140,6 +140,44 @@ func init() {
 	}
 }
 
+func init() {
+	drive.Embedded = func(v any, level int) any {
+		switch d := v.(type) {
+		case *DList:
+			return d.List
+		case *DDList:
+			if level > 0 {
+				return d.DList
+			}
+			return d.DList.List
+		case *DDDList:
+			switch level {
+			case 2:
+				return d.DDList
+			case 1:
+				return d.DDList.DList
+			}
+			return d.DDList.DList.List
+		case *DObject:
+			return d.Object
+		case *DDObject:
+			if level > 0 {
+				return d.DObject
+			}
+			return d.DObject.Object
+		case *DDDObject:
+			switch level {
+			case 2:
+				return d.DDObject
+			case 1:
+				return d.DDObject.DObject
+			}
+			return d.DDObject.DObject.Object
+		}
+		return nil
+	}
+}
+
 func isFluent(name string) bool {
 	return fluentNames[name] || strings.HasPrefix(name, "ForEach")
 }
